@@ -32,6 +32,7 @@ class Sources:
     def __init__(self, root=None):
         self.root = root or SRC
         self._mods = {}
+        self._sigs = None
         self.digests = {}
 
     def path(self, rel):
@@ -53,12 +54,31 @@ class Sources:
                 tree = ast.parse(txt, filename=rel)
             except SyntaxError as e:
                 raise AnalysisError(f"{rel} does not parse: {e}") from e
+            if os.environ.get("AUREL_NO_CANON") != "1":
+                from . import canon
+                tree = canon.canonicalise(tree, self._signatures())
+            singles = (ast.expr_context, ast.operator, ast.cmpop, ast.boolop, ast.unaryop)
             for node in ast.walk(tree):
                 for ch in ast.iter_child_nodes(node):
-                    ch._parent = node
+                    if not isinstance(ch, singles):   # these instances are shared by all trees
+                        ch._parent = node
             tree._rel = rel
             self._mods[rel] = tree
         return self._mods[rel]
+
+    def _signatures(self):
+        """parameter lists of the package's functions (for keyword -> positional rewriting)"""
+        if self._sigs is None:
+            from . import canon
+            trees = []
+            for rel in self.all_py():
+                try:
+                    with open(self.path(rel), "rb") as f:
+                        trees.append(ast.parse(f.read().decode("utf-8")))
+                except (SyntaxError, OSError):
+                    continue
+            self._sigs = canon._signatures(trees)
+        return self._sigs
 
     def yaml(self, rel):
         import yaml
@@ -106,6 +126,36 @@ def norm_src(node):
 
 def lineno(node):
     return getattr(node, "lineno", 0)
+
+
+def all_paths_return(block):
+    """does every path through this statement list end in a `return` (never fall off the end,
+    never raise at the end)?"""
+    if not block:
+        return False
+    last = block[-1]
+    if isinstance(last, ast.Return):
+        return True
+    if isinstance(last, ast.If):
+        return bool(last.orelse) and all_paths_return(last.body) \
+            and all_paths_return(last.orelse)
+    if isinstance(last, (ast.With,)):
+        return all_paths_return(last.body)
+    if isinstance(last, ast.Try):
+        return all_paths_return(last.body) and all(all_paths_return(h.body)
+                                                   for h in last.handlers)
+    return False
+
+
+def call_arg(call, pos, name=None):
+    """argument of a call by position or keyword"""
+    if len(call.args) > pos and not any(isinstance(a, ast.Starred) for a in call.args[:pos + 1]):
+        return call.args[pos]
+    if name is not None:
+        for k in call.keywords:
+            if k.arg == name:
+                return k.value
+    return None
 
 
 # --------------------------------------------------------------------------------------------
@@ -314,6 +364,20 @@ def run_check(prop, fn, tier, level="other", replay=None):
         fn(rep)
         return rep.finish()
     except AnalysisError as e:
+        if rep.findings:
+            # violations were already located before the analyser met something it does not
+            # understand (usually the same malformed construct): report them, keep the
+            # shortfall as a note -- an analysis error never masks a located violation
+            print(f"NOTE analysis incomplete: {e}")
+            rep.notes.append(f"analysis incomplete: {e}")
+            rep.floors = {}
+            try:
+                rc = rep.finish()
+            except AnalysisError as e2:
+                print(f"ANALYSIS-ERROR property={prop}: {e2}")
+                return 2
+            if rc == 1:
+                return 1
         print(f"ANALYSIS-ERROR property={prop}: {e}")
         return 2
     except Exception:  # noqa: BLE001
